@@ -10,6 +10,13 @@ def strs? (a : Array Json) : Option (List String) :=
 
 def flag (j : Json) (k : String) : Bool := getNat? j k == some 1
 
+/-- a keyword the caller may omit: absent key = omitted keyword (the model then applies the signature default of `Gen`) -/
+def optFlag (j : Json) (k : String) : Option Bool :=
+  match getNat? j k with
+  | some 1 => some true
+  | some _ => some false
+  | none => none
+
 /-- the stack argument: an array with its numpy shape, or an MRC file (header dims + payload) -/
 def input? {α : Type} (conv : Int → α) (j : Json) : Option (Input α) := do
   let inp ← (j.getObjVal? "input").toOption
@@ -33,8 +40,14 @@ def outJson {α : Type} (enc : α → Json) (o : Out α) : Json :=
         ("dims", Json.arr #[f.nx, f.ny, f.nz]), ("data", Json.arr (f.data.map enc).toArray)])).toArray)]
 
 def respond {α : Type} (enc : α → Json) (d : α) (j : Json) (op : A3 α → Except Err (List (A3 α))) (inp : Input α) : Json :=
-  match pipeline d (flag j "in_xyz") (flag j "out_zyx") (flag j "write") op inp with
+  match pipeline d (inXyzOf (optFlag j "in_xyz")) (outZyxOf (optFlag j "out_zyx")) (flag j "write") op inp with
   | .ok o => outJson enc o
+  | .error e => err ("reject:" ++ e.name)
+
+/-- binning of an int16 stack: the block means go through the cast back to int16 (truncation), in the file and in the result -/
+def respondCast {α β : Type} (c : α → β) (enc : β → Json) (d : α) (j : Json) (op : A3 α → Except Err (List (A3 α))) (inp : Input α) : Json :=
+  match pipeline d (inXyzOf (optFlag j "in_xyz")) (outZyxOf (optFlag j "out_zyx")) (flag j "write") op inp with
+  | .ok o => outJson enc (o.cast c)
   | .error e => err ("reject:" ++ e.name)
 
 def encInt (x : Int) : Json := (x : Json)
@@ -51,7 +64,9 @@ def handle (j : Json) : Json :=
     match getNat? j "b", getNat? j "den" with
     | some b, some den =>
       match input? (fun n => mkRat n den) j with
-      | some inp => respond encRat (0 : Rat) j (opBin b) inp
+      | some inp =>
+        if getStr? j "cast" == some "i16" then respondCast truncI encInt (0 : Rat) j (opBin b) inp
+        else respond encRat (0 : Rat) j (opBin b) inp
       | none => err "bad-args"
     | _, _ => err "bad-args"
   | some op =>
@@ -65,12 +80,22 @@ def handle (j : Json) : Json :=
         | none => err "bad-args"
       | "remove" =>
         match getArr? j "idxs" >>= ints? with
-        | some idxs => respond encInt 0 j (opRemove (flag j "base1") idxs) inp
+        | some idxs =>
+          let src := match getStr? j "src" with
+            | some "txt" => IdxSrc.txt
+            | some "csv" => IdxSrc.csv
+            | _ => IdxSrc.list
+          respond encInt 0 j (opRemoveSrc src (base1Of (optFlag j "base1")) idxs) inp
         | none => err "bad-args"
       | "split" => respond encInt 0 j opSplit inp
       | "flip" =>
         match getArr? j "axes" >>= strs? with
-        | some axes => respond encInt 0 j (opFlip axes) inp
+        | some axes =>
+          let arg := match getStr? j "axes_kind", axes with
+            | some "one", [a] => AxesArg.one a
+            | some "list", as => AxesArg.list as
+            | _, _ => AxesArg.other
+          respond encInt 0 j (opFlipArg arg) inp
         | none => err "bad-args"
       | "crop" =>
         match optNat j "new_w", optNat j "new_h" with
